@@ -499,7 +499,7 @@ func TestC16Files(t *testing.T) {
 	defer r.Flush()
 	rapid.Check(t, func(rt *rapid.T) {
 		text, _ := fixTextBeforeTag(breakDelims(genText(rt, 40)))
-		c := C16FileCase{Name: rapid.SampledFrom([]string{"page", "a.b", "with space", "UPPER", "x_1"}).Draw(rt, "name"),
+		c := C16FileCase{Name: rapid.SampledFrom([]string{"page", "a.b", "with space", "UPPER", "x_1", "sub/page", "a/b/c", "emails/welcome.html"}).Draw(rt, "name"),
 			Source: BStr(text + "{{ x }}{% if x %}y{% endif %}" + breakDelims(genText(rt, 10)))}
 		if rapid.IntRange(0, 3).Draw(rt, "big") == 0 {
 			c.Repeat = rapid.SampledFrom([]int{10, 200, 3000}).Draw(rt, "rep")
